@@ -145,6 +145,27 @@ def good_key(rng, n=16):
             return k
 
 
+def structured_key(rng):
+    """16-byte keys with structure: zero low half (the hash multiplier k0 = 0: the constructor must refuse it), zero high half
+    (mask k1 = 0: legal), a single bit, tiny multipliers, all ones.  A key is either refused or must satisfy every oracle."""
+    k = rng.random()
+    if k < 0.35:
+        return bytes(8) + rng.choice([rng.randbytes(8), b'\x01' + bytes(7), bytes(7) + b'\x80', b'\xff' * 8])
+    if k < 0.5:
+        return rng.randbytes(8) + bytes(8)
+    if k < 0.8:
+        bit = rng.randrange(128)
+        return (1 << bit).to_bytes(16, 'little')
+    if k < 0.9:
+        return rng.choice([b'\x01', b'\x02', b'\x03']) + bytes(7) + rng.randbytes(8)
+    return b'\xff' * 16
+
+
+def model_key_ok(key):
+    """Model/Clmul.key_ok: the key schedule's k0 is not 0."""
+    return int.from_bytes(key_schedule(key)[:8], 'little') != 0
+
+
 def gen_small(rng, force=None):
     """Model-sized case: both streams <= ~620 bytes, max <= 64."""
     mx = rng.choice([8, 12, 16, 16, 20, 24, 32, 32, 48, 64])
@@ -158,6 +179,8 @@ def gen_small(rng, force=None):
     kind = rng.choices(['pair', 'unaligned', 'insert', 'delete', 'alter', 'keys'], [30, 8, 14, 14, 14, 6])[0]
     dkind = rng.choices(['random', 'blocks', 'periodic', 'zero', 'lowent'], [70, 12, 8, 4, 6])[0]
     key = b'' if rng.random() < 0.1 else (good_key(rng, rng.choice([1, 3, 8])) if rng.random() < 0.1 else good_key(rng))
+    if rng.random() < 0.12:
+        key = structured_key(rng)
     case = {'kind': kind, 'key': key.hex(), 'mn': mn, 'mx': mx, 'dseed': rng.getrandbits(32), 'dkind': dkind,
             'segseed': rng.getrandbits(32), 'model': True, 'whole': False}
     if kind in ('pair', 'unaligned'):
@@ -194,8 +217,8 @@ def gen_large(rng, tier_big, force=None):
     if force:
         mn, mx = force
     kind = rng.choices(['pair', 'unaligned', 'insert', 'delete', 'alter', 'keys'], [22, 6, 20, 20, 20, 12])[0]
-    case = {'kind': kind, 'key': good_key(rng).hex(), 'mn': mn, 'mx': mx, 'dseed': rng.getrandbits(32), 'dkind': 'random',
-            'segseed': rng.getrandbits(32), 'model': False, 'whole': rng.random() < 0.5}
+    case = {'kind': kind, 'key': (structured_key(rng) if rng.random() < 0.2 else good_key(rng)).hex(), 'mn': mn, 'mx': mx,
+            'dseed': rng.getrandbits(32), 'dkind': 'random', 'segseed': rng.getrandbits(32), 'model': False, 'whole': rng.random() < 0.5}
     D = K_RESYNC * mx
     tail = D + 2 * mx + rng.randint(0, 4 * mx)
     if kind in ('pair', 'unaligned'):
@@ -203,9 +226,20 @@ def gen_large(rng, tier_big, force=None):
         l2 = 4 * rng.randint(0, mx) + (rng.choice([1, 2, 3]) if kind == 'unaligned' else 0)
         case.update(n=tail, p1=[rng.getrandbits(32), l1], p2=[rng.getrandbits(32), l2])
     elif kind == 'keys':
-        mode = rng.choice(['independent', 'k0', 'k1_top'])
+        mode = rng.choice(['independent', 'k0', 'k1_top', 'structured'])
         k = bytes.fromhex(case['key'])
-        if mode == 'independent':
+        if mode == 'structured':                            # two structured keys with different multipliers (or both without one)
+            k = structured_key(rng)
+            k2 = structured_key(rng)
+            while k2 == k or (k2[:8] == k[:8] and any(k[:8])):      # same non-zero multiplier: only the mask differs, not claimed
+                k2 = structured_key(rng)
+            case['key'] = k.hex()
+        elif not model_key_ok(k):
+            k = good_key(rng)
+            case['key'] = k.hex()
+        if mode == 'structured':
+            pass
+        elif mode == 'independent':
             k2 = good_key(rng)
         elif mode == 'k0':
             k2 = good_key(rng)[:8] + k[8:]
@@ -753,7 +787,7 @@ def hash_correspondence(rng, rep: Report, nkeyf=60, ndom=3):
 RULE = ('cases drawn from one PRNG: (a) model-sized (<= ~620 bytes, max <= 64; data random / repeated blocks / periodic / zero / two-letter): '
         'pairs prefix1+S, prefix2+S with prefix lengths multiples of 4, unaligned negative controls, insert / delete (multiples of 4 bytes at any '
         'offset) / alter edits, key pairs - each stream chunked by the real adapter over the recompiled C++ under a random segmentation AND by the '
-        'Gallina model (vm_compute); (b) oracle-only high-entropy streams of (256 + 2..6)*max bytes, max 64..256 (thorough: ..1024, some max not '
+        'Gallina model (vm_compute); keys: random, default, short, and structured (zero low / high half, single bits, tiny multipliers) - a key is refused by the constructor or held to every oracle; (b) oracle-only high-entropy streams of (256 + 2..6)*max bytes, max 64..256 (thorough: ..1024, some max not '
         'multiples of 4), min <= max/16, same kinds, key pairs independent / k0 only / k1 with differing top bit; (c) streams of > 2x the largest size constant of the source (else 40 MiB) handed over as ONE block and as many blocks, max 64..128 KiB, pairs and edits near the start; (d) sessions: 2-5 (stream, key) jobs on 1-3 adapter objects, sequential / interleaved / staggered starts with a random advance schedule, adapter / RepositoryProps.chunkify; (e) repository sessions (snapshot / add_key shared or not / list / snapshot by the same object, a new session, the other key holders; vanishing files), real snapshots [a,F], [b,F] in one repository, and one file in two encrypted repositories; '
         'non-trivial = a common boundary outside the tail zone followed by >= 2 shared chunks (pairs, edits), >= 40 chunks (keys), '
         '>= 1 verified dominant position; distinct = distinct case descriptions')
@@ -771,8 +805,21 @@ def check_cases(cases, rep: Report, with_model=True, stats=None):
     mcases, mimpl, mref = [], [], []
     for case in cases:
         X1, X2, n1, n2, cp = materialise(case)
-        p1, c1 = impl_run(case, X1, 1)
-        p2, c2 = impl_run(case, X2, 2)
+        used = [bytes.fromhex(case['key'])] + ([bytes.fromhex(case['key2'])] if case['kind'] == 'keys' else [])
+        try:
+            p1, c1 = impl_run(case, X1, 1)
+            p2, c2 = impl_run(case, X2, 2)
+        except ValueError as ex:
+            # a key the constructor refuses: legitimate exactly when the model's constructor check refuses it too
+            rep.case(case, nontrivial=False)
+            rep.count('key_refused')
+            if all(model_key_ok(k) for k in used):
+                rep.disagreements.append({'what': f'the adapter refuses key(s) {[k.hex() for k in used]} ({ex}) which Model/Clmul.key_ok accepts', 'replay': case})
+            continue
+        if not all(model_key_ok(k) for k in used):
+            rep.count('key_accepted_without_multiplier')
+            rep.disagreements.append({'what': f'the adapter accepts key(s) {[k.hex() for k in used if not model_key_ok(k)]} whose multiplier k0 is 0, which Model/Clmul.key_ok '
+                                              f'(the constructor check of src/adapters.cpp) refuses; the accepted key is held to all oracles', 'replay': case})
         problems, st = evaluate(case, c1, c2)
         if case.get('handover'):
             # the same stream handed over as ONE block and as many blocks: identical chunks outside the tail zone
